@@ -291,6 +291,56 @@ impl Phase for RandomArgs {
     }
 }
 
+/// One argument of a two-argument math function pinned to a value a fast path may key on (2, 10, e, 0.5, powers of two, …,
+/// as integer and as float), the other drawn at random with a full mantissa: a shortcut through exp2 / log10 / sqrt agrees
+/// with the general function on almost all arguments and differs in the last bit on a few in a thousand.
+struct PinnedArgument {
+    per_combo: u64,
+    names: Vec<&'static str>,
+    trees: Vec<Option<Node>>,
+}
+
+const PINNED_FNS: [&str; 4] = ["math::pow", "math::log", "math::atan2", "math::hypot"];
+
+fn pinned_values() -> Vec<RV> {
+    let mut v = Vec::new();
+    for x in [2.0f64, 10.0, std::f64::consts::E, 0.5, 4.0, 8.0, 16.0, 3.0, 1.0, -1.0, 0.0, -2.0, 0.25, 100.0, 1.0 / 3.0] {
+        v.push(RV::Float(x));
+        if x.fract() == 0.0 {
+            v.push(RV::Int(x as i64));
+        }
+    }
+    v
+}
+
+impl Phase for PinnedArgument {
+    fn name(&self) -> String {
+        "two-argument math functions with one argument pinned to a special value, the other random".into()
+    }
+    fn len(&self) -> u64 {
+        PINNED_FNS.len() as u64 * 2 * pinned_values().len() as u64 * self.per_combo
+    }
+    fn run(&mut self, idx: u64, r: &mut Rng, out: &mut Out) {
+        let pins = pinned_values();
+        let combo = idx / self.per_combo;
+        let f = PINNED_FNS[(combo % PINNED_FNS.len() as u64) as usize];
+        let side = (combo / PINNED_FNS.len() as u64) % 2;
+        let pin = pins[((combo / (PINNED_FNS.len() as u64 * 2)) as usize) % pins.len()].clone();
+        // full 53-bit mantissa, magnitude 2^-10 .. 2^10, either sign (mostly positive: logarithms and fractional powers)
+        let m = (r.next() >> 11) as f64 / (1u64 << 53) as f64 + 1.0;
+        let e = r.below(21) as i32 - 10;
+        let x = m * (2.0f64).powi(e) * if r.chance(1, 5) { -1.0 } else { 1.0 };
+        let other = RV::Float(x);
+        let arg = if side == 0 { RV::Tuple(vec![pin, other]) } else { RV::Tuple(vec![other, pin]) };
+        let ni = match self.names.iter().position(|n| *n == f) {
+            Some(i) => i,
+            None => return,
+        };
+        out.count("pinned-argument calls");
+        check_call(out, f, &self.trees[ni], &arg, false);
+    }
+}
+
 /// every builtin on every whole number from -1100 to 1100 (as integer and as float; alone and paired with 2, 10 and
 /// 0.5): the exponent range of a double, shift amounts, small powers — whatever a fast path may key on
 struct IntSweep {
@@ -673,6 +723,11 @@ pub fn phases_with(cfg: &Cfg, extra: &[&'static str]) -> Vec<Box<dyn Phase>> {
         }),
         Box::new(LargeArgs {
             n: cfg.n(6_000, 1_500_000),
+            trees: call_trees(&names),
+            names: names.clone(),
+        }),
+        Box::new(PinnedArgument {
+            per_combo: cfg.n(6_000, 300_000),
             trees: call_trees(&names),
             names: names.clone(),
         }),
